@@ -282,6 +282,30 @@ fn first_step_reaches_xend() -> Option<String> {
     None
 }
 
+
+/// C07/C06: inside a step the dense output is accurate to the interpolant's order (RK4: cubic Hermite, error O(h^4)):
+/// halving h must reduce the mid-step error of sol(t) by about 16, and the error must be of the size of h^4
+fn dense_midstep_order() -> Option<String> {
+    let mut errs = Vec::new();
+    for h in [0.1, 0.05, 0.025] {
+        let f = Lin::new();
+        let mut o = Options::builder().method(Method::RK4).dense_output(true).build();
+        o.first_step = Some(h);
+        let s = match solve_ivp(&f, 0.0, 1.0, &[1.0, 2.0], o) { Ok(s) => s, Err(e) => return Some(format!("RK4 h={}: {:?}", h, e)) };
+        let mut worst: f64 = 0.0;
+        for w in s.t.windows(2) {
+            let tm = 0.5 * (w[0] + w[1]);
+            if let Ok(y) = s.sol(tm) { worst = worst.max((y[0] - (-tm).exp()).abs()); }
+        }
+        errs.push((h, worst));
+    }
+    let r1 = errs[0].1 / errs[1].1; let r2 = errs[1].1 / errs[2].1;
+    if r1 < 8.0 || r2 < 8.0 || errs[0].1 > 1e-5 {
+        return Some(format!("RK4 dense output on y'=-y, mid-step error of sol(t): {:?}; ratios {:.2}, {:.2} (a cubic Hermite interpolant gives about 16 and an error near 1e-7 at h=0.1)", errs, r1, r2));
+    }
+    None
+}
+
 fn main() {
     let which = std::env::args().nth(1).unwrap_or_default();
     let r = match which.as_str() {
@@ -293,6 +317,7 @@ fn main() {
         "matrix_dense_model" => matrix_dense_model(),
         "rk4_overshoot" => rk4_overshoot(),
         "counters" => counters(),
+        "dense_midstep_order" => dense_midstep_order(),
         "first_step_reaches_xend" => first_step_reaches_xend(),
         "short_steps_reported" => short_steps_reported(),
         "first_step_sign_and_overshoot" => first_step_sign_and_overshoot(),
